@@ -248,6 +248,50 @@ pub fn gen_case(seed: u64, k: u64) -> Case {
         );
         shape = format!("chain{};", n);
     }
+    // rarely: something nested very deeply (a generated table of parentheses, a machine-written source). Every
+    // recursive descent - parser, both assembling modes, formatter, listing, dropping the tree - sees it. These
+    // cases run on the 8 MiB stack of the real main thread.
+    if !shape.starts_with("chain") && rng.chance(1, 50) {
+        // (14 and 24: deep enough for a parser that backtracks exponentially in the depth to pass its budget,
+        // shallow enough for every stack)
+        let depth = *rng.pick(&[14usize, 24, 24, 40, 400, 3_000, 40_000]);
+        let kind = rng.below(17);
+        let (open, mid, close): (&str, &str, &str) = match kind {
+            0 => ("(", "1", ")"),
+            1 => ("{", " nop ", "}"),
+            2 => ("-", "1", ""),
+            3 => ("!", "1", ""),
+            4 => (".if 1 {", " nop ", "}"),
+            5 => (".loop 1 {", " nop ", "}"),
+            6 => ("<", "$1234", ""),
+            7 => ("[", "1", "]"),
+            // the same, with something unparsable in the innermost place: all the way back out
+            9 => ("(", "1 $ ", ")"),
+            10 => ("{", " lda # ", "}"),
+            // nested calls
+            11 => ("max(", "1", ")"),
+            12 => ("m(", "", ")"),
+            // not nested at all in the source, but a tree as deep as the chain is long: 1+1+1+...
+            13 => ("1+", "1", ""),
+            14 => ("1*", "1", ""),
+            15 => ("a.", "a", ""),
+            16 => ("1,", "1", ""),
+            _ => (".segment \"default\" {", " nop ", "}"),
+        };
+        let prefix = if matches!(kind, 0 | 2 | 3 | 6 | 7 | 9 | 11) {
+            "lda #"
+        } else if matches!(kind, 13..=16) {
+            ".byte "
+        } else {
+            ""
+        };
+        let nested = format!("{}{}{}{}\n", prefix, open.repeat(depth), mid, close.repeat(depth));
+        let target = names[rng.below(names.len())].to_string();
+        if let Some(f) = project.files.get_mut(&target) {
+            f.extend_from_slice(nested.as_bytes());
+        }
+        shape.push_str(&format!("nest{}x{};", kind, depth));
+    }
     if uses_file || rng.chance(1, 10) {
         if rng.chance(3, 4) {
             project
@@ -425,6 +469,7 @@ pub struct RunStats {
     pub faults_fired: BTreeMap<String, u64>,
     pub max_passes: u64,
     pub max_work: u64,
+    pub max_parse_ratio: u64,
     pub invocations: u64,
     pub diagnostics: u64,
     pub produced_output: bool,
@@ -535,6 +580,16 @@ fn panic_found(pipeline: &str, stage: &str) -> Found {
             class: "nonterminating_expansion".into(),
             sig: "nonterminating:expansion".into(),
             message: format!("pipeline {} does not terminate in any useful sense: {} (decided on the logical clock of emitted tokens)", pipeline, b.message),
+        };
+    }
+    if let Some(b) = p
+        .iter()
+        .find(|p| p.message.contains(passwatch::PARSE_BUDGET_MARKER))
+    {
+        return Found {
+            class: "nonterminating_parse".into(),
+            sig: "nonterminating:parse".into(),
+            message: format!("pipeline {} does not terminate in any useful sense: {} (decided on the logical clock of parse attempts: the budget is {} + {} per byte of the file)", pipeline, b.message, passwatch::PARSE_BUDGET_BASE, passwatch::PARSE_BUDGET_PER_BYTE),
         };
     }
     let last = p.last();
@@ -676,6 +731,7 @@ pub fn execute(c: &Case, stats: &mut RunStats) -> Option<Found> {
     let ps = passwatch::uninstall();
     stats.max_passes = ps.max_passes as u64;
     stats.max_work = ps.max_work;
+    stats.max_parse_ratio = ps.max_parse_ratio;
     stats.invocations = ps.invocations;
     let d = disk::uninstall().unwrap();
     for (k, v) in &d.fired {
@@ -997,47 +1053,61 @@ fn execute_inner(
             }
         }
         _ => {
-            // The formatter rewrites the user's sources in place. Whatever happens - success, a diagnostic, an I/O
-            // error half-way, a panic - no source file may end up with less in it than before: formatting moves
-            // white space and changes letter case, it never removes a character. (Only when no planned fault
-            // alters what a read returns, so that "before" is what the formatter saw.)
+            // The formatter rewrites the user's sources in place. When the command FAILS (a diagnostic, an I/O
+            // error half-way, a panic) every source file must afterwards be either what it was or what a run
+            // without faults makes of it - not empty, not half written. (What a successful run does to the text is
+            // the formatter's own correctness, property C12. Only when no planned fault alters what a read
+            // returns, so that "what it was" is what the formatter saw.)
             let content_faults = c
                 .faults
                 .iter()
                 .any(|f| matches!(f.kind, FaultKind::Truncate(_) | FaultKind::Replace(_)));
-            let ink = |b: &[u8]| b.iter().filter(|c| !c.is_ascii_whitespace()).count();
-            let before: Vec<(PathBuf, usize)> = disk::with(|d| {
-                d.files
-                    .iter()
-                    .filter(|(p, _)| p.extension().map(|e| e == "asm").unwrap_or(false))
-                    .map(|(p, b)| (p.clone(), ink(b)))
-                    .collect()
-            })
-            .unwrap_or_default();
+            let snapshot = || -> BTreeMap<PathBuf, Vec<u8>> {
+                disk::with(|d| {
+                    d.files
+                        .iter()
+                        .filter(|(p, _)| p.extension().map(|e| e == "asm").unwrap_or(false))
+                        .map(|(p, b)| (p.clone(), b.clone()))
+                        .collect()
+                })
+                .unwrap_or_default()
+            };
+            let before = snapshot();
             let r = std::panic::catch_unwind(std::panic::AssertUnwindSafe(|| format_command(&cfg)));
             let outcome = match &r {
                 Err(_) => "a panic",
                 Ok(Ok(())) => "success",
                 Ok(Err(_)) => "an error",
             };
-            // Judged only when the command did NOT succeed: what a successful run does to the text (it may, for instance,
-            // lose a comment) is the formatter's own correctness, property C12, not termination under faults.
             if !content_faults && outcome != "success" {
-                for (p, n) in &before {
-                    stats.labels_checked += 1;
-                    let after = disk::with(|d| d.files.get(p).map(|b| ink(b))).flatten();
-                    if after.map(|a| a < *n).unwrap_or(true) {
-                        return Some(Found {
-                            class: "source_destroyed".into(),
-                            sig: "format:source_destroyed".into(),
-                            message: format!(
-                                "pipeline format ended with {} and left {} with {} of its {} non-blank characters",
-                                outcome,
-                                p.display(),
-                                after.map(|a| a.to_string()).unwrap_or_else(|| "none (file gone)".into()),
-                                n
-                            ),
-                        });
+                let after = snapshot();
+                if before.iter().any(|(p, b)| after.get(p) != Some(b)) {
+                    // the same command on the same files without any fault: what "formatted" means
+                    let faulty = disk::uninstall();
+                    disk::install(c.project.disk_at(root));
+                    let clean_ok = matches!(std::panic::catch_unwind(std::panic::AssertUnwindSafe(|| format_command(&cfg))), Ok(Ok(())));
+                    let formatted = if clean_ok { snapshot() } else { BTreeMap::new() };
+                    disk::uninstall();
+                    if let Some(f) = faulty {
+                        disk::install(f);
+                    }
+                    for (p, b) in &before {
+                        stats.labels_checked += 1;
+                        let a = after.get(p);
+                        if a != Some(b) && (a.is_none() || a != formatted.get(p)) {
+                            return Some(Found {
+                                class: "source_destroyed".into(),
+                                sig: "format:source_destroyed".into(),
+                                message: format!(
+                                    "pipeline format ended with {} and left {} as neither its original {} bytes nor the {} bytes a run without faults makes of it, but {}",
+                                    outcome,
+                                    p.display(),
+                                    b.len(),
+                                    formatted.get(p).map(|x| x.len().to_string()).unwrap_or_else(|| "(no)".into()),
+                                    a.map(|x| format!("{} bytes", x.len())).unwrap_or_else(|| "nothing (the file is gone)".into()),
+                                ),
+                            });
+                        }
                     }
                 }
             }
@@ -1198,7 +1268,7 @@ fn minimise(cli: &Cli, c: &Case, found: &Found) -> (Case, Found) {
 
 fn stats_json(agg: &Agg) -> Value {
     json!({
-        "runs": agg.runs, "faults_fired": agg.faults_fired, "max_passes": agg.max_passes, "max_work": agg.max_work, "invocations": agg.invocations,
+        "runs": agg.runs, "faults_fired": agg.faults_fired, "max_passes": agg.max_passes, "max_work": agg.max_work, "max_parse_ratio": agg.max_parse_ratio, "invocations": agg.invocations,
         "diagnostics": agg.diagnostics, "labels_checked": agg.labels_checked, "pipelines": agg.pipelines, "results": agg.results,
         "runs_with_fault_fired": agg.runs_with_fault, "reads": agg.reads, "max_reads": agg.max_reads, "pass_histogram": agg.pass_hist,
     })
@@ -1210,6 +1280,7 @@ struct Agg {
     faults_fired: BTreeMap<String, u64>,
     max_passes: u64,
     max_work: u64,
+    max_parse_ratio: u64,
     invocations: u64,
     diagnostics: u64,
     labels_checked: u64,
@@ -1232,6 +1303,7 @@ impl Agg {
         }
         self.max_passes = self.max_passes.max(st.max_passes);
         self.max_work = self.max_work.max(st.max_work);
+        self.max_parse_ratio = self.max_parse_ratio.max(st.max_parse_ratio);
         self.invocations += st.invocations;
         self.diagnostics += st.diagnostics;
         self.labels_checked += st.labels_checked;
@@ -1425,6 +1497,7 @@ pub fn main(cli: &Cli) -> i32 {
     let mut max_passes = 0u64;
     let mut max_reads = 0u64;
     let mut max_work = 0u64;
+    let mut max_parse_ratio = 0u64;
     for s in &sup.stats {
         for key in [
             "runs",
@@ -1439,6 +1512,7 @@ pub fn main(cli: &Cli) -> i32 {
         }
         max_passes = max_passes.max(s.get("max_passes").and_then(|x| x.as_u64()).unwrap_or(0));
         max_work = max_work.max(s.get("max_work").and_then(|x| x.as_u64()).unwrap_or(0));
+        max_parse_ratio = max_parse_ratio.max(s.get("max_parse_ratio").and_then(|x| x.as_u64()).unwrap_or(0));
         max_reads = max_reads.max(s.get("max_reads").and_then(|x| x.as_u64()).unwrap_or(0));
         add_u64(&mut faults, s.get("faults_fired"));
         add_u64(&mut pipelines, s.get("pipelines"));
@@ -1541,6 +1615,7 @@ pub fn main(cli: &Cli) -> i32 {
     }
     ev.set("max_passes_of_any_run", json!(max_passes));
     ev.set("max_tokens_emitted_in_one_pass", json!(max_work));
+    ev.set("max_parse_attempts_per_byte", json!(max_parse_ratio as f64 / 1000.0));
     ev.set(
         "token_emission_budget_per_pass",
         json!(passwatch::WORK_BUDGET),
